@@ -298,4 +298,180 @@ theorem sync_ok (b : Buf) (hinv : Inv b) (hg : Gen.Buf.ensureGrowOnly = true) (h
       have : q < b1.outLen := by simpa using hq
       simp only [this, if_true]
 
+/-! ### the pair (out-part, in-part) -/
+
+theorem zl_set {α} (O R : List α) (x y : α) (q : Nat) :
+    (O ++ y :: R)[q]? = if q = O.length then some y else (O ++ x :: R)[q]? := by
+  by_cases h1 : q < O.length
+  · have : q ≠ O.length := by omega
+    simp [List.getElem?_append_left h1, this]
+  · by_cases h2 : q = O.length
+    · subst h2; simp
+    · have h3 : q - O.length = (q - O.length - 1) + 1 := by omega
+      rw [List.getElem?_append_right (by omega), List.getElem?_append_right (by omega), h3]
+      simp [h2]
+
+theorem zl_insert {α} (O R : List α) (y : α) (q : Nat) :
+    (O ++ y :: R)[q]? = if q < O.length then (O ++ R)[q]? else if q = O.length then some y else (O ++ R)[q - 1]? := by
+  by_cases h1 : q < O.length
+  · simp [List.getElem?_append_left h1, h1]
+  · by_cases h2 : q = O.length
+    · subst h2; simp
+    · have h3 : q - O.length = (q - 1 - O.length) + 1 := by omega
+      rw [List.getElem?_append_right (by omega), h3]
+      simp only [h1, h2, if_false, List.getElem?_cons_succ]
+      rw [List.getElem?_append_right (by omega)]
+
+theorem zl_erase {α} (O R : List α) (x : α) (q : Nat) :
+    (O ++ R)[q]? = if q < O.length then (O ++ x :: R)[q]? else (O ++ x :: R)[q + 1]? := by
+  by_cases h1 : q < O.length
+  · simp [List.getElem?_append_left h1, h1]
+  · have h3 : q + 1 - O.length = (q - O.length) + 1 := by omega
+    simp only [h1, if_false]
+    rw [List.getElem?_append_right (by omega), List.getElem?_append_right (by omega), h3]
+    simp
+
+/-- the glyphs already on the output side -/
+def outP (b : Buf) : List Info := b.outArr.take b.outLen
+/-- the glyphs still to be read -/
+def inP (b : Buf) : List Info := (b.info.drop b.idx).take (b.len - b.idx)
+
+theorem outP_length (b : Buf) (hinv : Inv b) : (outP b).length = b.outLen := by
+  have hidx := hinv.idx_le
+  have hlen := hinv.len_le
+  unfold outP
+  cases hs : b.sepOut with
+  | true => have := hinv.sep_ok hs; simp [outArr, hs]; omega
+  | false => have := hinv.nosep_ok hs; simp [outArr, hs]; omega
+
+theorem inP_length (b : Buf) (hinv : Inv b) : (inP b).length = b.len - b.idx := by
+  have hidx := hinv.idx_le
+  have hlen := hinv.len_le
+  unfold inP
+  simp; omega
+
+theorem parts_getElem? (b : Buf) (hinv : Inv b) (q : Nat) : (outP b ++ inP b)[q]? = seq b q := by
+  have hl1 := outP_length b hinv
+  unfold seq
+  by_cases h1 : q < b.outLen
+  · simp only [h1, if_true]
+    rw [List.getElem?_append_left (by omega)]
+    unfold outP
+    rw [List.getElem?_take]
+    simp [h1]
+  · simp only [h1, if_false]
+    rw [List.getElem?_append_right (by omega), hl1]
+    unfold inP
+    rw [List.getElem?_take]
+    by_cases h2 : q - b.outLen < b.len - b.idx
+    · simp only [h2, if_true, List.getElem?_drop]
+    · simp only [h2, if_false]
+
+theorem parts_of_seq (b : Buf) (hinv : Inv b) (A B : List Info) (hA : A.length = b.outLen)
+    (h : ∀ q, seq b q = (A ++ B)[q]?) : outP b = A ∧ inP b = B := by
+  have heq : outP b ++ inP b = A ++ B := by
+    apply List.ext_getElem?
+    intro q
+    rw [parts_getElem? b hinv, h q]
+  exact List.append_inj heq (by rw [outP_length b hinv, hA])
+
+theorem inP_head (b : Buf) (hinv : Inv b) (x : Info) (R : List Info) (h : inP b = x :: R) :
+    b.idx < b.len ∧ b.info[b.idx]? = some x := by
+  have hl := inP_length b hinv
+  rw [h] at hl
+  simp at hl
+  have hcur : b.idx < b.len := by omega
+  refine ⟨hcur, ?_⟩
+  have h0 := parts_getElem? b hinv b.outLen
+  rw [seq_at_outLen b hcur, List.getElem?_append_right (by rw [outP_length b hinv]; exact Nat.le_refl _),
+    outP_length b hinv, h] at h0
+  simpa using h0.symm
+
+theorem seq_parts (b : Buf) (hinv : Inv b) (q : Nat) : seq b q = (outP b ++ inP b)[q]? :=
+  (parts_getElem? b hinv q).symm
+
+theorem nextGlyph_parts (b : Buf) (hinv : Inv b) (hg : Gen.Buf.ensureGrowOnly = true) (x : Info) (R : List Info)
+    (hin : inP b = x :: R) (hb : b.outLen + 1 ≤ b.maxLen) :
+    ∃ b', b.nextGlyph = .ok b' ∧ Inv b' ∧ outP b' = outP b ++ [x] ∧ inP b' = R ∧
+      b'.successful = b.successful ∧ b'.maxLen = b.maxLen := by
+  obtain ⟨hcur, hx⟩ := inP_head b hinv x R hin
+  obtain ⟨b', h, hinv', ho, hi, hl, hsu, hml, hsq⟩ := nextGlyph_ok b hinv hcur hg hb
+  obtain ⟨h1, h2⟩ := parts_of_seq b' hinv' (outP b ++ [x]) R (by simp [outP_length b hinv, ho]) (by
+    intro q
+    rw [hsq q, seq_parts b hinv, hin]
+    simp)
+  exact ⟨b', h, hinv', h1, h2, hsu, hml⟩
+
+theorem replaceGlyph_parts (b : Buf) (g : Nat) (hinv : Inv b) (hg : Gen.Buf.ensureGrowOnly = true) (x : Info)
+    (R : List Info) (hin : inP b = x :: R) (hb : b.outLen + 1 ≤ b.maxLen) :
+    ∃ b', b.replaceGlyph g = .ok b' ∧ Inv b' ∧ outP b' = outP b ++ [{ x with gid := g }] ∧ inP b' = R ∧
+      b'.successful = b.successful ∧ b'.maxLen = b.maxLen := by
+  obtain ⟨hcur, hx⟩ := inP_head b hinv x R hin
+  obtain ⟨b', h, hinv', ho, hi, hl, hsu, hml, x', hx', hsq⟩ := replaceGlyph_ok b g hinv hcur hg hb
+  have hxx : x' = x := by rw [hx] at hx'; cases hx'; rfl
+  subst hxx
+  obtain ⟨h1, h2⟩ := parts_of_seq b' hinv' (outP b ++ [{ x' with gid := g }]) R (by simp [outP_length b hinv, ho]) (by
+    intro q
+    rw [hsq q, seq_parts b hinv, hin, List.append_assoc, List.singleton_append,
+      zl_set (outP b) R x' { x' with gid := g } q, outP_length b hinv])
+  exact ⟨b', h, hinv', h1, h2, hsu, hml⟩
+
+theorem outputGlyph_parts (b : Buf) (g : Nat) (hinv : Inv b) (hg : Gen.Buf.ensureGrowOnly = true) (x : Info)
+    (R : List Info) (hin : inP b = x :: R) (hb : b.outLen + 1 ≤ b.maxLen) :
+    ∃ b', b.outputGlyph g = .ok b' ∧ Inv b' ∧ outP b' = outP b ++ [{ x with gid := g }] ∧ inP b' = x :: R ∧
+      b'.successful = b.successful ∧ b'.maxLen = b.maxLen := by
+  obtain ⟨hcur, hx⟩ := inP_head b hinv x R hin
+  obtain ⟨b', h, hinv', ho, hi, hl, hsu, hml, x', hx', _, hsq⟩ := outputGlyph_ok b g hinv hcur hg hb
+  have hxx : x' = x := by rw [hx] at hx'; cases hx'; rfl
+  subst hxx
+  obtain ⟨h1, h2⟩ := parts_of_seq b' hinv' (outP b ++ [{ x' with gid := g }]) (x' :: R) (by simp [outP_length b hinv, ho]) (by
+    intro q
+    rw [hsq q, List.append_assoc, List.singleton_append,
+      zl_insert (outP b) (x' :: R) { x' with gid := g } q, outP_length b hinv, seq_parts b hinv, seq_parts b hinv, hin])
+  exact ⟨b', h, hinv', h1, h2, hsu, hml⟩
+
+theorem skipGlyph_parts (b : Buf) (hinv : Inv b) (x : Info) (R : List Info) (hin : inP b = x :: R) :
+    Inv b.skipGlyph ∧ outP b.skipGlyph = outP b ∧ inP b.skipGlyph = R := by
+  obtain ⟨hcur, hx⟩ := inP_head b hinv x R hin
+  obtain ⟨hinv', hsq⟩ := skipGlyph_spec b hinv hcur hinv.nosep_ok
+  obtain ⟨h1, h2⟩ := parts_of_seq b.skipGlyph hinv' (outP b) R (by simp [outP_length b hinv, skipGlyph]) (by
+    intro q
+    rw [hsq q, zl_erase (outP b) R x q, outP_length b hinv, seq_parts b hinv, seq_parts b hinv, hin])
+  exact ⟨hinv', h1, h2⟩
+
+/-- overwriting the current glyph in place (`cur_mut(0)` writes of the apply context) -/
+theorem putCur_parts (b : Buf) (hinv : Inv b) (x y : Info) (R : List Info) (hin : inP b = x :: R) :
+    Inv { b with info := b.info.set b.idx y } ∧ outP { b with info := b.info.set b.idx y } = outP b ∧
+      inP { b with info := b.info.set b.idx y } = y :: R := by
+  obtain ⟨hcur, hx⟩ := inP_head b hinv x R hin
+  have hidx := hinv.idx_le
+  have hlen := hinv.len_le
+  have hinv' : Inv { b with info := b.info.set b.idx y } :=
+    ⟨hinv.idx_le, by simpa using hinv.len_le, by simpa using hinv.out_len, hinv.sep_ok, hinv.nosep_ok, hinv.have_out⟩
+  refine ⟨hinv', ?_⟩
+  apply parts_of_seq _ hinv' (outP b) (y :: R) (by simp [outP_length b hinv])
+  intro q
+  rw [zl_set (outP b) R x y q, outP_length b hinv, ← hin, ← seq_parts b hinv]
+  simp only [seq, outArr]
+  by_cases h1 : q < b.outLen
+  · have h2 : q ≠ b.outLen := by omega
+    simp only [h1, h2, if_true, if_false]
+    cases hs : b.sepOut with
+    | true => simp
+    | false =>
+      have := hinv.nosep_ok hs
+      simp only [Bool.false_eq_true, if_false]
+      rw [List.getElem?_set_ne (by omega)]
+  · simp only [h1, if_false]
+    by_cases h2 : q = b.outLen
+    · subst h2
+      have : 0 < b.len - b.idx := by omega
+      simp only [Nat.sub_self, this, if_true, Nat.add_zero]
+      rw [List.getElem?_set_self (by omega)]
+    · simp only [h2, if_false]
+      by_cases h3 : q - b.outLen < b.len - b.idx
+      · simp only [h3, if_true]
+        rw [List.getElem?_set_ne (by omega)]
+      · simp only [h3, if_false]
+
 end RbModel.Buf
